@@ -935,7 +935,8 @@ namespace avel {
         auto should_offset = abs(frac) >= vec8x32f{0.5f};
         auto ret = whole + keep(should_offset, offset);
 
-        return ret;
+        // the result carries the sign of the argument, also when it is zero (whole + 0.0 would turn -0.0 into +0.0)
+        return copysign(ret, v);
     }
 
     [[nodiscard]]
